@@ -2,7 +2,7 @@
 
 stage 1  translate/gen_loop.py regenerates Gen/GenLoop.v (loop tests, bodies, returns of special_cel.py)
 stage 2  Props/C15.v: termination of the AGM-type loops over R with explicit N, guards of the circle /
-         cylinder-axial wrappers, and the binary64 refutation (C15_circle_terminates_refuted)
+         cylinder-axial wrappers, and the binary64 refutation (C15_cel_iter_terminates_refuted)
 stage 3  bit-exact correspondence of the fuelled float model (vm_compute, primitive binary64) with the
          real cel0 / celv / cel / cel_iter0 / cel_iterv / cel_iter / current_circle_Hfield /
          magnet_cylinder_axial_Bfield / BHJM_circle: values AND iteration counts (the real loops are
@@ -766,7 +766,8 @@ def search(ctx, big):
                                 failed.add((cls, g))
                                 found += 1
                                 clause = "terminates" if s3 == "hang" else "returns"
-                                ctx.impl_fail(f"{clause}/{cls}:{g}:batch>=16",
+                                ess_b = sorted({norm_tag(t) for t in g.split(",") if norm_tag(t)})
+                                ctx.impl_fail(f"{clause}/{cls}:{region(cls, label, ess_b)}:batch",
                                               f"{cls}({label}).get{field} on {len(tile)} observers of this special set "
                                               f"{'does not return' if s3 == 'hang' else 'raises ' + repr(v3)[:80]} "
                                               f"(each observer alone is fine)",
@@ -849,12 +850,12 @@ def run(ctx):
         "cores not modelled (cuboid, diametral cylinder, cylinder segment / el3, triangle, polyline, dipole, sphere) "
         "are covered by the watchdog search only",
     ]
-    ctx.refuted += ["C15_circle_terminates_refuted"]
+    ctx.refuted += ["C15_cel_iter_terminates_refuted"]
     ctx.partial += ["C15_guards_sufficient_circle_partial", "C15_guards_sufficient_cylinder_axial_partial"]
     ok = ctx.regen(["GenLoop"])
     built = ctx.build_props() and ok
     if built:
-        okp, out = ctx.coq_eval("c15_assum", "From MV Require Import Props.C15.\nPrint Assumptions C15_circle_terminates_refuted.\n")
+        okp, out = ctx.coq_eval("c15_assum", "From MV Require Import Props.C15.\nPrint Assumptions C15_cel_iter_terminates_refuted.\n")
         ctx.extra["refuted_theorem_assumptions"] = out[-1800:] if okp else "could not be printed: " + out[-500:]
     if ctx.tier == "thorough" and built:
         ctx.coqchk("MV.Props.C15")
